@@ -16,7 +16,7 @@ from vlib import rawgraph, topogen
 PROPERTY = 'C10'
 LEVEL = 'exploration'
 SHARDS = {'quick': 4, 'thorough': 16}
-TIME_BUDGET = {'quick': 400, 'thorough': 1500}     # safety net only: the workload is fixed, not time-boxed
+TIME_BUDGET = {'quick': 400, 'thorough': 3300}     # safety net only: the workload is fixed, not time-boxed
 EXHAUSTIVE = {'thorough': True}
 
 TYPES = list(R.PIN_SERVICE)
@@ -862,7 +862,7 @@ def run(ctx):
         ctx.mark_inconclusive(f'shard {sh}: time budget reached after {done} of {len(mine)} points of the service product')
     # ---- random multi-service mixes
     rng = ctx.subrng('mix')
-    for i in range(ctx.pick(10, 400)):
+    for i in range(ctx.pick(10, 200)):
         if ctx.out_of_time():
             break
         run_case(ctx, imp, r_desc(rng), f'R/{ctx.seed}/{sh}/{i}')
